@@ -203,3 +203,84 @@ Theorem declared_tag_captures_automatic :
     auto_tag_name (bs "/x") = bs "@x" /\ pathTagTitle (bs "/x") = bs "/x".
 Proof. exact declared_tag_captures_automatic_lemma. Qed.
 Print Assumptions declared_tag_captures_automatic.
+
+(* ======================================================================================= *)
+(* position-wise part (proofs/CatalogMoreProofs.v): the tags of the interaction of a GIVEN method
+   directive.  Vocabulary of proofs/FaithfulProofs.v: dk t = the kind of node t; method_kind t = t is a
+   GET/POST/PUT/PATCH/DELETE or a JSON-RPC Method node; inter_delta t anc = [the interaction id such a
+   node makes at that position] (protocol, keyword / MethodName, path: own Path parameter or the
+   enclosing URL's).  "the first Tags child td of x" is written
+   tree_kids x = l1 ++ td :: l2, no node of l1 is a Tags, dk td = KTags. *)
+From JV.proofs Require Import FaithfulProofs CatalogMoreProofs.
+
+(* explicit_tags_win says: every interaction has SOME method directive whose tag_spec it carries.  Here,
+   for EVERY method directive of the forest: it makes one id, the id is a key of the catalog, and the
+   entry under that key carries exactly tag_spec of THIS directive at THIS position *)
+Theorem tags_at_every_method : forall pp bt banned post c,
+  build pp bt banned post = COk c ->
+  forall t anc, occurs post t anc -> method_kind t = true ->
+    exists i x, inter_delta t anc = [i] /\ made_by t anc i /\ In (i, x) (c_inters c) /\
+                itags x = tag_spec t anc i.
+Proof. exact tags_at_position_lemma. Qed.
+Print Assumptions tags_at_every_method.
+
+(* the URL-level Tags applies wherever it stands among the URL's children: a method child m (HTTP or
+   JSON-RPC) of the URL u that has no Tags child of its own carries exactly the names of u's first Tags
+   child td, whether m stands before td (in l1) or after it (in l2) *)
+Theorem url_tags_apply_wherever_they_stand : forall pp bt banned post c,
+  build pp bt banned post = COk c ->
+  forall u anc l1 td l2 m,
+    occurs post u anc -> dk u = KURL ->
+    tree_kids u = l1 ++ td :: l2 -> (forall y, In y l1 -> dk y <> KTags) -> dk td = KTags ->
+    In m (l1 ++ l2) -> method_kind m = true -> (forall y, In y (tree_kids m) -> dk y <> KTags) ->
+    exists i x, inter_delta m (u :: anc) = [i] /\ In (i, x) (c_inters c) /\ itags x = d_unnamed (tree_dir td).
+Proof. exact url_tags_any_position_lemma. Qed.
+Print Assumptions url_tags_apply_wherever_they_stand.
+
+(* a method's own Tags wins, whatever its ancestors are (in particular over the Tags of a parent URL):
+   the interaction of a method (HTTP or JSON-RPC) carries exactly the names of its own first Tags child *)
+Theorem own_tags_win_over_url_tags : forall pp bt banned post c,
+  build pp bt banned post = COk c ->
+  forall m anc l1 td l2,
+    occurs post m anc -> method_kind m = true ->
+    tree_kids m = l1 ++ td :: l2 -> (forall y, In y l1 -> dk y <> KTags) -> dk td = KTags ->
+    exists i x, inter_delta m anc = [i] /\ In (i, x) (c_inters c) /\ itags x = d_unnamed (tree_dir td).
+Proof. exact own_tags_win_lemma. Qed.
+Print Assumptions own_tags_win_over_url_tags.
+
+(* an HTTP method that is a ROOT of the expanded forest (a method written at top level, and equally a
+   path-bearing method hoisted out of a URL block: its parent is the root) takes tags from no URL: without
+   a Tags child of its own, its interaction - id (http, keyword, own Path parameter) - carries the single
+   automatic tag of its own path (tagName of "/" ++ first segment) *)
+Theorem root_method_takes_no_url_tags : forall pp bt banned post c,
+  build pp bt banned post = COk c ->
+  forall m, In m post -> is_http_method (dk m) = true -> (forall y, In y (tree_kids m) -> dk y <> KTags) ->
+    exists x, In ({| i_proto := PHttp; i_method := method_name (dk m); i_path := named (tree_dir m) (bs "Path") |}, x)
+                 (c_inters c) /\
+              itags x = [auto_tag_name (named (tree_dir m) (bs "Path"))] /\
+              tagName (pathTagTitle (named (tree_dir m) (bs "Path"))) = GOk (auto_tag_name (named (tree_dir m) (bs "Path"))).
+Proof. exact root_method_auto_tag_lemma. Qed.
+Print Assumptions root_method_takes_no_url_tags.
+
+(* the hypotheses are satisfiable.  JSIGHT 0.3 / TAG @a / TAG @b /
+   URL /u { GET {200 any}, Tags @a, POST {Tags @b, 200 any} } / GET /v/w {200 any} /
+   URL /r { Protocol json-rpc-2.0, Method foo, Tags @a, Method bar {Tags @b} }:
+   GET /u stands BEFORE the URL's Tags and carries @a; POST /u and Method bar carry their own @b; Method foo
+   (before the URL's Tags) carries @a; the root GET /v/w carries its automatic @v *)
+Theorem tags_by_position_example :
+  exists c, ex_build ex_tags_forest = COk c /\
+    map (fun e => (iid_string (fst e), itags (snd e))) (c_inters c) =
+      [ (bs "http GET /u", [bs "@a"]); (bs "http POST /u", [bs "@b"]); (bs "http GET /v/w", [bs "@v"]);
+        (bs "json-rpc-2.0 foo /r", [bs "@a"]); (bs "json-rpc-2.0 bar /r", [bs "@b"]) ] /\
+    occurs ex_tags_forest ex_u [] /\ dk ex_u = KURL /\
+    tree_kids ex_u = [ex_u_get] ++ ex_u_tags :: [ex_u_post] /\ dk ex_u_tags = KTags /\
+    method_kind ex_u_get = true /\ forallb (fun y => negb (kind_eqb (dk y) KTags)) (tree_kids ex_u_get) = true /\
+    occurs ex_tags_forest ex_r [] /\ dk ex_r = KURL /\
+    tree_kids ex_r = firstn 2 (tree_kids ex_r) ++ ex_r_tags :: [ex_r_bar] /\ In ex_r_foo (firstn 2 (tree_kids ex_r)) /\
+    method_kind ex_r_foo = true /\ tree_kids ex_r_foo = [] /\
+    method_kind ex_u_post = true /\ (exists td l2, tree_kids ex_u_post = [] ++ td :: l2 /\ dk td = KTags) /\
+    method_kind ex_r_bar = true /\ (exists td l2, tree_kids ex_r_bar = [] ++ td :: l2 /\ dk td = KTags) /\
+    In ex_root_get ex_tags_forest /\ is_http_method (dk ex_root_get) = true /\
+    forallb (fun y => negb (kind_eqb (dk y) KTags)) (tree_kids ex_root_get) = true.
+Proof. exact tags_positions_example. Qed.
+Print Assumptions tags_by_position_example.
